@@ -113,7 +113,9 @@ type Plan struct {
 }
 
 var rawURLs = []string{"/other/x", "/mod/example.com/a", "/mod/example.com/a/@v/v1.0.0", "/mod/example.com/a/@v/v1.0.0.foo",
-	"/mod/Example.com/a/@v/list", "/mod/example.com/a/@v/", "/mod/example.com/a/@v/V1.0.0.info", "/mod/"}
+	"/mod/Example.com/a/@v/list", "/mod/example.com/a/@v/", "/mod/example.com/a/@v/V1.0.0.info", "/mod/",
+	// URLs that are not in cleaned form name nothing that is stored
+	"/mod", "/mod//example.com/a/@v/list", "/mod/example.com/a/../a/@v/v1.0.0.info", "/mod/./example.com/a/@v/v1.0.0.mod", "/mod/example.com//a/@v/v1.0.0.zip", "/x/../mod/example.com/a/@v/list"}
 
 func genPlan(t *rapid.T, tier string) any {
 	p := &Plan{}
@@ -182,6 +184,15 @@ func genPlan(t *rapid.T, tier string) any {
 		}
 		if r.Near == 0 && versions[r.Ver] == pseudo && rapid.IntRange(0, 2).Draw(t, "byhash") == 0 {
 			r.Hash = rapid.SampledFrom([]string{"abcdef123456", "abcdef12", "abcdef1234567890"}).Draw(t, "hash")
+		} else if r.Near == 0 && len(p.Mods) > 0 && rapid.IntRange(0, 9).Draw(t, "byshort") == 0 {
+			// the commit hash recorded in the .info of some stored version - asked of this or of another module path
+			m := p.Mods[rapid.IntRange(0, len(p.Mods)-1).Draw(t, "shortof")]
+			r.Hash = shortOf(m)
+			if rapid.Bool().Draw(t, "shortelsewhere") {
+				r.Path = rapid.IntRange(0, len(paths)-1).Draw(t, "shortpath")
+			} else {
+				r.Path = m.Path
+			}
 		}
 		if rapid.IntRange(0, 14).Draw(t, "touch") == 0 {
 			// not a request: somebody drops an unrelated file into the served directory
@@ -280,11 +291,18 @@ func body(m ModVer, f FileSpec) []byte {
 	return []byte(s)
 }
 
+func shortOf(m ModVer) string {
+	if m.EmptyInfo {
+		return ""
+	}
+	return fmt.Sprintf("%x", 0xabc000+m.Path*16+m.Ver)
+}
+
 func infoOf(m ModVer) []byte {
 	if m.EmptyInfo {
 		return nil
 	}
-	return []byte(fmt.Sprintf("{\"Version\":%q,\"Time\":\"2020-01-01T00:00:00Z\",\"Short\":\"%x\"}\n", versions[m.Ver], 0xabc000+m.Path*16+m.Ver))
+	return []byte(fmt.Sprintf("{\"Version\":%q,\"Time\":\"2020-01-01T00:00:00Z\",\"Short\":\"%s\"}\n", versions[m.Ver], shortOf(m)))
 }
 func modOf(m ModVer) []byte {
 	if m.EmptyMod {
@@ -409,9 +427,22 @@ func runWith(t *testing.T, p *Plan, out *simcheck.Outcome, dir, other string, ke
 		}
 		if r.Hash != "" {
 			url += r.Hash + "." + r.Kind
+			// a commit hash names a stored version of this module path if it is a prefix of (or extends) the hash
+			// in that version's pseudo-version suffix or .info file; what is served then is not asserted, but a
+			// hash that names no stored version of this path is "not stored"
 			for _, m := range p.Mods {
-				if m.Path == r.Path {
-					return url, expect{code: -1} // not asserted
+				if m.Path != r.Path {
+					continue
+				}
+				hs := []string{shortOf(m)}
+				if versions[m.Ver] == pseudo {
+					hs = append(hs, pseudo[strings.LastIndex(pseudo, "-")+1:])
+				}
+				for _, h := range hs {
+					// (a stored version whose .info records no hash at all may be taken for any commit: not asserted either)
+					if h == "" || strings.HasPrefix(h, r.Hash) || strings.HasPrefix(r.Hash, h) {
+						return url, expect{code: -1} // not asserted
+					}
 				}
 			}
 			return url, expect{code: 404}
@@ -678,7 +709,7 @@ var harness = &simcheck.Harness{
 	Level:    "exploration",
 	Rule: "rapid draws a module directory (1-5 module versions over 4 paths incl. upper-case and /v2, 8 versions incl. pre-release, pseudo, +incompatible, upper-case and invalid-for-path ones; " +
 		".txt, .txtar or directory layout; .info, .mod, nested files, top-level and nested dot files, empty files, now and then a 70 KB file, files without final newline), optionally an earlier Server of the same process over a directory that disagrees with this one (asked for everything it stores, then closed), then 2-5 client tasks with 1-5 requests each " +
-		"(list / .info / .mod / .zip of stored and absent versions, near-miss spellings of stored versions such as v1, v1.0, v1.0.0+meta, malformed URLs, unrelated files dropped into the served directory between requests, a storm of 10-24 requests for distinct module paths that do not exist, requests naming the stored pseudo-version by its commit hash (unasserted disturbers), and client faults: a client that has given up before the handler runs (cancelled context, unasserted), slow clients whose headers or response writes take 1-120 simulated seconds against whatever time limits the server was configured with; two thirds of the clients share their first request) and a schedule; " +
+		"(list / .info / .mod / .zip of stored and absent versions, near-miss spellings of stored versions such as v1, v1.0, v1.0.0+meta, malformed URLs, unrelated files dropped into the served directory between requests, a storm of 10-24 requests for distinct module paths that do not exist, requests by commit hash (the pseudo-version's, or the one recorded in a stored version's .info, asked of that or of another module path: 404 when it names no stored version of the path, otherwise unasserted), and client faults: a client that has given up before the handler runs (cancelled context, unasserted), slow clients whose headers or response writes take 1-120 simulated seconds against whatever time limits the server was configured with; two thirds of the clients share their first request) and a schedule; " +
 		"non-trivial = more context switches than clients+3; distinct by decision-trace hash",
 	Gen:     genPlan,
 	NewPlan: func() any { return &Plan{} },
